@@ -39,6 +39,11 @@ class Module:
             self.tree, self.norm_counts = normalize(self.tree)
             from . import alpha, inline
             self.inlined, self.not_inlined = inline.apply(self.tree, relpath, loader)
+            if self.inlined:
+                # inlined bodies can expose new canonicalisable forms (a literal flag substituted for a parameter ...)
+                self.tree, c2 = normalize(self.tree)
+                for k_, v_ in c2.items():
+                    self.norm_counts[k_] = self.norm_counts.get(k_, 0) + v_
             from .normalize import split_tuple_assignments, fold_constant_conditions
             self.norm_counts['folded'] = fold_constant_conditions(self.tree)
             self.norm_counts['tuple_split'] = split_tuple_assignments(self.tree)
